@@ -490,12 +490,21 @@ func init() {
 				js = append(js, j)
 			}
 		}
+		// weighted caches, three distinct keys with symbolic weights (zero and oversized weights included), no clock movement
+		for _, tm := range []int{0, 1} {
+			js = append(js, mk(sprintf("c19.bw_w10.lean.tmax%d", tm), rootPkg, "ZZ_C19_SaveLoad",
+				with(cfgParams(0, 0, 2, 10, 0, 0), "nset", 3, "tmax", tm, "override", 0, "lean", 1),
+				func(b *Bounds) { b.Unwind = 70; b.MaxPaths = 600000; b.MaxWallS = 1200 }))
+		}
 		for _, j := range js {
 			if j.Params["bound"] == 0 {
 				j.Prefer = "int"
 			}
+			if _, ok := j.Params["lean"]; !ok {
+				j.Params["lean"] = 0
+			}
 		}
-		j := mk("c19.canary", rootPkg, "ZZ_C19_SaveLoad", with(cfgParams(2, 0, 0, 0, 1, 0), "nset", 1, "tmax", 0, "override", 0, "canary", 1), func(b *Bounds) { b.Unwind = 70 })
+		j := mk("c19.canary", rootPkg, "ZZ_C19_SaveLoad", with(cfgParams(2, 0, 0, 0, 1, 0), "nset", 1, "tmax", 0, "override", 0, "canary", 1, "lean", 0), func(b *Bounds) { b.Unwind = 70 })
 		j.Canary = "c19.canary"
 		return append(js, j)
 	}
@@ -829,6 +838,8 @@ func init() {
 			js = append(js, mk(sprintf("c15.par.scenario%d.pre%d", sc, p), hashmapPkg, "ZZ_C15_Par", map[string]int{"scenario": sc, "prefill": 5, "canary": 0},
 				func(b *Bounds) { b.Unwind = 140; b.Preempt = p; b.Race = true; b.MaxPaths = 8000000; b.MaxWallS = 3000 }))
 		}
+		js = append(js, mk("c15.par.parallel_resize_vs_insert.pre1", hashmapPkg, "ZZ_C15_Par", map[string]int{"scenario": 4, "prefill": 0, "canary": 0},
+			func(b *Bounds) { b.Unwind = 300; b.Preempt = 1; b.Race = true; b.Procs = 4; b.MaxPaths = 8000000; b.MaxWallS = 3000 }))
 		c := mk("c15.par.canary", hashmapPkg, "ZZ_C15_Par", map[string]int{"scenario": 1, "prefill": 5, "canary": 1}, func(b *Bounds) { b.Unwind = 140; b.Preempt = 0; b.Race = true })
 		c.Canary = "c15.par.canary"
 		return append(js, c)
